@@ -47,6 +47,8 @@ def shapes(tier):
             for nu in (0, 1):
                 if nn + ne + nu and (tier == 'thorough' or nn + ne + nu <= 3):
                     out.append(dict(part='deletion', nodes=nn, edges=ne, updated=nu))
+    out.append(dict(part='deletion', nodes=0, edges=1, updated=2))
+    out.append(dict(part='deletion', nodes=0, edges=0, updated=2))
     out.append(dict(part='room_mutation'))
     for kind in ('node', 'edge'):
         for n in (1, 2):
